@@ -223,9 +223,7 @@ def c16(tier, seed):
     name, crates, bins, cases, excluded = driver.e2_build("main", tier)
     r.evaluations += len(cases)
     r.counters["main_corpus_cases_compiled_by_rustc"] = len(cases) - len(excluded)
-    # TODO(flip after the where-clause / all-skipped fixes are in /repo): the accepted corpus
-    with_accepted = os.environ.get("VERIF_C16_ACCEPTED", "0") == "1"
-    for corpus in ("generic", "present") + (("accepted",) if with_accepted else ()):
+    for corpus in ("generic", "present", "accepted"):
         _, _, _, cases2, excluded2 = driver.e2_build(corpus, "quick" if corpus == "accepted" else tier)
         r.evaluations += len(cases2)
         r.counters[corpus + "_corpus_cases_compiled_by_rustc"] = len(cases2) - len(excluded2)
